@@ -542,10 +542,36 @@ func checkContent(h *History, vs []*opView) {
 		if st == "nometa" {
 			// no metadata in the response: every record must still come from some
 			// generation for this op's own key by the selected upstream.
+			u := h.Ups[v.outcome.Forward]
 			if nrec == 0 {
+				// not a single record left (the one that carries the metadata
+				// included) in a NOERROR response: when everything the upstream
+				// ever said about this question had records and would have fitted
+				// written out in full, records were omitted without need (C09)
+				if m.Rcode() == 0 && u != nil && v.tok != nil && len(m.Q) == 1 {
+					n, all := 0, true
+					for _, rp := range u.Replies {
+						if rp.Token != op.Token || rp.Serial == 0 || rp.At > d.at || rp.Key != peers.KeyOf(v.lower, m.Q[0].Class, m.Q[0].Type) {
+							continue
+						}
+						if rp.Kind != "reply" && rp.Kind != "dup" {
+							all = false
+							continue
+						}
+						cand := peers.Generate(h.P.Seed, u.Spec.Tag, op.Token, v.lower, m.Q[0].Class, m.Q[0].Type, v.tok.SpecFor(rp.Arrival), rp.Serial, "", 0)
+						n++
+						// (the metadata record and an ECS echo are not in cand: 300 octets cover them)
+						if cand.Rcode() != 0 || len(cand.An)+len(cand.Ns)+len(stripOPT(cand.Ar)) == 0 || refdns.UncompressedLen(cand)+300 > limit {
+							all = false
+						}
+					}
+					if n > 0 && all {
+						h.S.Probe("c09_recordless_checked")
+						h.S.Fail("C09", "needless-truncation", "%s: the response has no records at all (TC=%v, %d bytes, limit %d) although each of the %d answers upstream %s gave for this question has records and fits the limit written out in full", name, m.Has(refdns.BitTC), len(d.raw), limit, n, v.outcome.Forward)
+					}
+				}
 				continue
 			}
-			u := h.Ups[v.outcome.Forward]
 			matched := false
 			if u != nil {
 				spec := &u.DefaultAns
